@@ -71,7 +71,7 @@ class Verdict:
     clean exception or exact survival), 'either' (statement silent: same two outcomes, counted apart),
     'skip' (packed size above PACK_CAP)."""
 
-    __slots__ = ("cls", "stage", "reason", "packed_limit", "ba_vs_packed")
+    __slots__ = ("cls", "stage", "reason", "packed_limit", "ba_vs_packed", "inputs")
 
     def __init__(self):
         self.cls = "accept"
@@ -79,6 +79,7 @@ class Verdict:
         self.reason = None
         self.packed_limit = False  # some packed element equals a limit value (multi-element value)
         self.ba_vs_packed = None  # relation of an explicit ByteArray type to the packed type before it
+        self.inputs = []  # per stage: (ideal input values, numpy dtype name of the array that carries them)
 
     def problem(self, stage, reason):
         if self.cls in ("accept", "either"):
@@ -89,14 +90,19 @@ class Verdict:
             self.cls, self.stage, self.reason = "either", stage, reason
 
 
-def int_chain(vals, tc, chain, allow_big=False):
+def int_chain(vals, tc, chain, allow_big=False, np_range=None, np_name=None):
     """vals: list of Python ints as they enter the chain; tc: type code of the incoming array
     (DTYPE_TC of its dtype: 64-bit arrays enter as their 32-bit counterpart);
     chain: list of specs ending with a ByteArray."""
     v = Verdict()
     cur = vals
     last_kind = None
+    if np_range is None:
+        np_range = RANGES[tc]
+    if np_name is None:
+        np_name = TC_NAME[tc]
     for idx, (kind, p) in enumerate(chain):
+        v.inputs.append((cur, np_name))
         if kind == "B":
             t = p.get("type") or tc
             if t in (32, 33):
@@ -116,9 +122,14 @@ def int_chain(vals, tc, chain, allow_big=False):
             src = p.get("src_type") or tc
             if not fits(cur, src):
                 v.problem("Delta", "input_exceeds_src_type")
+            elif src != tc:
+                # documented meaning of src_type: the type of the array that is encoded
+                v.either("Delta", "src_type_differs_from_array_type")
             origin = p["origin"] if p.get("origin") is not None else (cur[0] if cur else 0)
             if not (I32_LO <= origin <= I32_HI):
                 v.problem("Delta", "origin_exceeds_int32")
+            elif not (np_range[0] <= origin <= np_range[1]):
+                v.either("Delta", "origin_outside_array_type_range")
             out = []
             prev = origin
             for x in cur:
@@ -126,7 +137,13 @@ def int_chain(vals, tc, chain, allow_big=False):
                 prev = x
             if not fits(out, 3):
                 v.problem("Delta", "difference_exceeds_int32")
-            cur, tc = out, 3
+            elif any(not (np_range[0] <= d <= np_range[1]) for d in out) or any(
+                    not (np_range[0] <= x - origin <= np_range[1]) for x in cur):
+                # the statement does not say in which width x - origin is formed; wrapped and ideal
+                # differences decode alike but look different to the stages that follow
+                if idx + 1 < len(chain) and not (len(chain) == idx + 2 and chain[-1][1].get("type") in (None, 3)):
+                    v.either("Delta", "difference_exceeds_array_type_range")
+            cur, tc, np_range, np_name = out, 3, RANGES[3], "int32"
         elif kind == "R":
             if not cur:
                 v.either("RunLength", "empty")
@@ -144,7 +161,7 @@ def int_chain(vals, tc, chain, allow_big=False):
                 else:
                     out.append(x)
                     out.append(1)
-            cur, tc = out, 3
+            cur, tc, np_range, np_name = out, 3, RANGES[3], "int32"
         elif kind == "P":
             if not cur and p.get("is_unsigned") is None:
                 v.either("IntegerPacking", "empty")
@@ -152,7 +169,14 @@ def int_chain(vals, tc, chain, allow_big=False):
                 v.problem("IntegerPacking", "src_size_mismatch")
             if not fits(cur, 3):
                 v.problem("IntegerPacking", "input_exceeds_int32")
-                return v  # the ideal packed form is of no interest any more
+                # the ideal packed form is of no interest any more; only the cost of running the
+                # case is: an implementation that wraps to 32 bit may end up packing a huge value
+                wrapped = [((x + 2**31) % 2**32) - 2**31 for x in cur]
+                n = sum(pack_len(x, -128 if p["byte_count"] == 1 else -32768,
+                                 127 if p["byte_count"] == 1 else 32767) for x in wrapped)
+                if n > PACK_CAP and not allow_big:
+                    v.cls, v.reason = "skip", "packed_size_above_cap"
+                return v
             uns = p.get("is_unsigned")
             if uns is None:
                 uns = (min(cur) >= 0) if cur else True
@@ -181,6 +205,8 @@ def int_chain(vals, tc, chain, allow_big=False):
                     v.packed_limit = True
                 cur = out
             tc = ptc
+            np_range = RANGES[ptc]
+            np_name = TC_NAME[ptc]
         else:
             raise ValueError(kind)
         last_kind = kind
